@@ -394,7 +394,7 @@ func c20Build(r *core.Run, ch *core.Child, build string, rng *rand.Rand) {
 			// valid-only variants
 			if int64(c) <= int64(L) {
 				buf := full
-				for _, variant := range []string{"must", "mustshared", "stream"} {
+				for _, variant := range []string{"must", "mustshared", "stream", "stream1", "stream3"} {
 					loc := map[string]string{"reader": variant, "count": countClass(c, L)}
 					m, ok := c20Do(r, ch, build, map[string]any{"op": "str", "variant": variant, "hex": []string{hex.EncodeToString(buf)}}, "string", loc)
 					if !ok {
